@@ -3,6 +3,7 @@ package yyflow
 import (
 	"fmt"
 	"go/ast"
+	"go/token"
 	"os"
 	"go/types"
 	"sort"
@@ -191,6 +192,9 @@ func (l *Lang) summary(a *Action) string {
 			us = append(us, Canon(u.Base)+"."+u.F+ap+Canon(u.Val))
 		}
 		for _, ev := range p.St.Events {
+			if ev.Kind == "assert" {
+				continue // how an action spells its assertions is not part of what it builds (rule assert-safe)
+			}
 			var as []string
 			for _, a := range ev.Args {
 				as = append(as, Canon(a))
@@ -832,6 +836,18 @@ func (l *Lang) TreePresence(shapes map[string]*Shape) map[string]*Presence {
 			}
 		}
 	}
+	l.ntNonEmpty = map[string]map[string]bool{}
+	for x, m := range nt {
+		l.ntNonEmpty[x] = map[string]bool{}
+		for t, ps := range m {
+			if ps.top {
+				continue
+			}
+			for f := range ps.nonEmpty {
+				l.ntNonEmpty[x][t+"."+f] = true
+			}
+		}
+	}
 	// fields that a later fold sets on the elements of a list nonterminal (PHP 5 member-access chains)
 	foldNT := map[string]map[string]bool{}
 	addFold := func(x string, fs []string) bool {
@@ -1064,6 +1080,13 @@ func isCarrierLike(o *Obj, esc map[string]bool, a *Action) bool { return true }
 func (l *Lang) CoSet(shapes map[string]*Shape) map[string]map[string]map[string]bool {
 	out := map[string]map[string]map[string]bool{}
 	escCo := l.EscapesWhole()
+	// lists held by carriers (nonterminal|Type.Field) that every production of the nonterminal leaves non-empty
+	carrierNonEmpty := map[string]bool{}
+	for nt, m := range l.carrierPresence(shapes) {
+		for tf, ne := range m {
+			carrierNonEmpty[nt+"|"+tf] = ne
+		}
+	}
 	meet := func(t, f string, with map[string]bool) {
 		if out[t] == nil {
 			out[t] = map[string]map[string]bool{}
@@ -1136,11 +1159,42 @@ func (l *Lang) CoSet(shapes map[string]*Shape) map[string]map[string]map[string]
 				}
 				groups[k][u.F] = u.Val
 			}
+			var nonEmptyV func(v Val) bool
+			nonEmptyV = func(v Val) bool {
+				if f := p.St.Facts[v.String()]; f != nil && f.LenGt0 != nil && *f.LenGt0 {
+					return true
+				}
+				switch x := v.(type) {
+				case ListV:
+					for _, sg := range x.Segs {
+						if _, ok := sg.(Elem); ok {
+							return true
+						}
+						if nonEmptyV(sg) {
+							return true
+						}
+					}
+				case Sym:
+					if x.I >= 1 && x.I <= len(a.Prod.RHS) {
+						sh := shapes[a.Prod.RHS[x.I-1]]
+						return x.Member == "list" && sh != nil && !sh.MayEmpty && !sh.MayNil && !sh.Unknown
+					}
+				case Part:
+					if sy, ok := x.Base.(Sym); ok && carrierNonEmpty != nil && sy.I >= 1 && sy.I <= len(a.Prod.RHS) {
+						return carrierNonEmpty[a.Prod.RHS[sy.I-1]+"|"+x.T+"."+x.F]
+					}
+				}
+				return false
+			}
 			for k, fields := range groups {
 				certainSet := map[string]bool{}
 				for f, v := range fields {
 					if certainV(v) {
 						certainSet[f] = true
+					}
+					// a list that is certainly non-empty: an emptiness test of it decides absence
+					if nonEmptyV(v) {
+						certainSet[f+"#nonempty"] = true
 					}
 				}
 				for f, v := range fields {
@@ -1152,4 +1206,88 @@ func (l *Lang) CoSet(shapes map[string]*Shape) map[string]map[string]map[string]
 		}
 	}
 	return out
+}
+
+
+// AssertSafe: a single-value type assertion x.(T) in an action panics when x is
+// nil or holds another type. For every assertion on a right-hand-side value $k
+// the rule requires that the path has established $k != nil when the
+// productions of that symbol can yield nil, and has established the type when
+// they can yield a node of another type.
+func (l *Lang) AssertSafe(shapes map[string]*Shape) *report.RuleResult {
+	res := report.NewResult("assert-safe")
+	g := l.L.G
+	for n := 1; n < len(l.Actions); n++ {
+		a := l.Actions[n]
+		pkey := l.L.Label + ":" + g.Key(a.Prod)
+		type verdict struct {
+			bad string
+			at  token.Pos
+		}
+		seen := map[string]*verdict{}
+		var order []string
+		for _, p := range a.Paths {
+			for _, ev := range p.St.Events {
+				if ev.Kind != "assert" || len(ev.Args) != 2 {
+					continue
+				}
+				sy, ok := ev.Args[0].(Sym)
+				if !ok || sy.I < 1 || sy.I > len(a.Prod.RHS) || sy.Member != "node" {
+					continue
+				}
+				tn := ev.Args[1].(Opq).What
+				name := a.Prod.RHS[sy.I-1]
+				if gs := g.Symbols[name]; gs == nil || gs.Terminal {
+					continue
+				}
+				k := fmt.Sprintf("%s/$%d.(%s)", pkey, sy.I, tn)
+				v := seen[k]
+				if v == nil {
+					v = &verdict{at: ev.At}
+					seen[k] = v
+					order = append(order, k)
+				}
+				sh := shapes[name]
+				if sh == nil || sh.Unknown {
+					continue
+				}
+				if sh.MayNil && !ev.NonNil && v.bad == "" {
+					v.bad = fmt.Sprintf("$%d (%s) can be nil (an empty or error alternative yields nil) and the path [%s] reaches $%d.(%s) without a nil test of $%d: the assertion panics", sy.I, name, strings.Join(p.St.Conds, "; "), sy.I, tn, sy.I)
+				}
+				if ev.TypeIs != tn && v.bad == "" {
+					var others []string
+					for t := range sh.Types {
+						if t != tn && !strings.HasSuffix(tn, "Vertex") {
+							others = append(others, t)
+						}
+					}
+					sort.Strings(others)
+					if len(others) > 0 && !interfaceName(tn) {
+						v.bad = fmt.Sprintf("$%d (%s) can hold %s, and the path [%s] reaches $%d.(%s) without a test of the dynamic type: the assertion panics", sy.I, name, strings.Join(others, ", "), strings.Join(p.St.Conds, "; "), sy.I, tn)
+					}
+				}
+			}
+		}
+		for _, k := range order {
+			v := seen[k]
+			res.Count("assertions", 1)
+			if v.bad == "" {
+				res.OK(k, l.Prog.Pos(v.at), a.Prod.String(), "the asserted value is non-nil and of the asserted type on every path")
+			} else {
+				res.Bad(k, l.Prog.Pos(v.at), a.Prod.String(), v.bad)
+			}
+		}
+	}
+	return res
+}
+
+func interfaceName(tn string) bool { return tn == "ast.Vertex" || !strings.Contains(tn, ".") }
+
+
+// carrierPresence: nonterminal → "T.F" → the list in field F of the T objects the nonterminal yields is never empty.
+func (l *Lang) carrierPresence(shapes map[string]*Shape) map[string]map[string]bool {
+	if l.ntNonEmpty == nil {
+		l.TreePresence(shapes)
+	}
+	return l.ntNonEmpty
 }
